@@ -252,6 +252,16 @@ void ev(uint16_t kind, int64_t a, int64_t b, int64_t c, const char *s, size_t sl
         g_hash = fnv1a(s, slen, g_hash);
 }
 
+void trace_reset()
+{
+    g_hash = 0xcbf29ce484222325ull;
+    g_proj = 0xcbf29ce484222325ull;
+    g_seq.store(0);
+}
+uint64_t trace_hash_now()
+{
+    return g_hash;
+}
 std::string ev_str(const Shm *s, const Event &e)
 {
     if (!e.s_len)
@@ -289,6 +299,17 @@ void wall_jump(int64_t ns)
 {
     g_wall_off += ns;
     count(C_CLOCK_JUMP);
+}
+ClockState clock_save()
+{
+    return ClockState { g_mono, g_wall_epoch, g_mono0, g_wall_off };
+}
+void clock_restore(const ClockState &s)
+{
+    g_mono = s.mono;
+    g_wall_epoch = s.epoch;
+    g_mono0 = s.mono0;
+    g_wall_off = s.off;
 }
 void clock_reads_begin()
 {
@@ -1057,6 +1078,19 @@ void fs_disarm()
             free(F.fdpath[i]);
             F.fdpath[i] = nullptr;
         }
+}
+void fs_reset_counts()
+{
+    memset(F.counts, 0, sizeof F.counts);
+}
+void fs_set_fault(const FsFault &f)
+{
+    F.cfg.fault = f;
+    F.fault_fired = false;
+}
+bool fs_fault_fired()
+{
+    return F.fault_fired;
 }
 int fs_call_count(int call)
 {
